@@ -13,9 +13,9 @@ from mc import ev as E
 from mc.space import seqs, chunked
 from pykdebugparser.pykdebugparser import PyKdebugParser
 
-MAP = [(1, 10, 'A'), (2, 20, 'B')]
-PIDOF = {1: 10, 2: 20}
-NAMEOF = {10: 'A', 20: 'B'}
+MAP = [(1, 10, 'A'), (2, 0, 'B')]      # thread 2 belongs to pid 0 (kernel_task's pid)
+PIDOF = {1: 10, 2: 0}
+NAMEOF = {10: 'A', 0: 'B'}
 
 
 def R(name, q, args=(0, 0, 0, 0), tid=1, ts=1, data=None):
@@ -43,6 +43,11 @@ def ops(t):
         'open-with-150-nested-traps': lambda ts: [R('BSC_open', 1, (1, 0, 0, 0), t, ts), R('VFS_LOOKUP', 3, tid=t, ts=ts + 1, data=B.lookup_chunks(5, '/long')[0][0])] +
                                                  [R('MSC_mach_reply_port', 1 + (i % 2), (7, 0, 0, 0), t, ts + 2 + i) for i in range(300)] +
                                                  [R('BSC_open', 2, (0, 3, 0, 0), t, ts + 302)],
+        # the two records of one lookup separated by records of other classes of the same thread (a wait, a complete mach trap)
+        'open+lookup-split-by-foreign-records': lambda ts: [
+            R('BSC_open', 1, (1, 0, 0, 0), t, ts), R('VFS_LOOKUP', 1, tid=t, ts=ts + 1, data=B.lookup_chunks(5, '/a/path/of/more/than/24/bytes')[0][0]),
+            R('MACH_WAIT', 0, (0x10, 0, 0, 0), t, ts + 2), R('MSC_mach_reply_port', 1, tid=t, ts=ts + 3), R('MSC_mach_reply_port', 2, (7, 0, 0, 0), t, ts + 4),
+            R('VFS_LOOKUP', 2, tid=t, ts=ts + 5, data=B.lookup_chunks(5, '/a/path/of/more/than/24/bytes')[1][0]), R('BSC_open', 2, (0, 3, 0, 0), t, ts + 6)],
         'image': lambda ts: [R('DYLD_uuid_map_a', 0, (0x11 * t, 0x22, 0x1000 * t, 3), t, ts)],
         'dlopen-500': lambda ts: [R('DBG_DYLD_TIMING_DLOPEN', 1, (0, 500, 1, 0), t, ts), R('DBG_DYLD_TIMING_DLOPEN', 2, (0, 0xbeef, 0, 0), t, ts + 1)],
         'announce-500': lambda ts: [R('TRACE_STRING_GLOBAL', 3, tid=t, ts=ts, data=B.global_string_chunks(0, 500, '/usr/lib/libz')[0][0])],
@@ -83,7 +88,7 @@ def class_lists():
 
 SUBCLASS_LISTS = [(), (0x40c,), (0x40d,)]
 TIDS = [None, 1, 2]
-PROCS = [None, 'A', '20', 'zz', 'Z1']
+PROCS = [None, 'A', '0', 'zz', 'Z1']
 
 
 def configure(f, cfg, as_tuple=False):
@@ -261,6 +266,13 @@ class C13(Check):
         """the commutation check on a stream with a very long call, and with class lists that repeat an entry."""
         dup_lists = [(4, 4), (3, 3), (4, 1, 4), (7, 7), (1, 1)]
         streams = [(('open-with-150-nested-traps', 1), ('getpid', 2), ('open+lookup', 1)), (('getpid', 1), ('open-with-150-nested-traps', 2))]
+        for opseq in ((('open+lookup-split-by-foreign-records', 1), ('getpid', 2)), (('getpid', 1), ('open+lookup-split-by-foreign-records', 2), ('open+lookup', 2))):
+            for cfg in [(t, p, c, s) for t in TIDS for p in PROCS for c in class_lists() for s in SUBCLASS_LISTS]:
+                bad = judge_commute(opseq, cfg, False)
+                acc.case(nontrivial=True, transitions=2, state=h64((cfg, 'A+')))
+                if bad:
+                    acc.violation(bad[0], {'kind': 'A', 'ops': [list(o) for o in opseq], 'cfg': [cfg[0], cfg[1], list(cfg[2]), list(cfg[3])], 'as_tuple': False},
+                                  {k: (v if not isinstance(v, list) else v[:3] + ['...']) for k, v in bad[1].items()})
         for opseq in streams:
             for cfg in [(t, p, c, s) for t in (None, 1) for p in (None, 'A') for c in class_lists() + dup_lists for s in SUBCLASS_LISTS]:
                 bad = judge_commute(opseq, cfg, False)
